@@ -115,7 +115,7 @@ def main(ctx):
     if r.ok and r.dump:
         n = 0
         for cs, exp in core.cases_from_dump(r.dump):
-            if quick and ctx.rng.random() > 0.3:
+            if quick and cs['f']['cols'][0]['dt'][0] != 'b' and ctx.rng.random() > 0.3:
                 continue
             n += 1
             lays = P.layouts_for([c['dt'] for c in cs['f']['cols']])
